@@ -317,7 +317,7 @@ def build():
                      ('R-forname', r'for \(set_handle, data_handle, a_handle\) in delete \{', 'let ghost vx_end = *self; for (set_handle, data_handle, a_handle) in vx_it: delete {')],
            prologue='let ghost mut vx_l1: Seq<AnnotationHandle> = Seq::empty(); let ghost mut vx_l2: Seq<AnnotationHandle> = Seq::empty(); proof { lemma_refl(*self); }',
            before=[(r're:if let Some\(annotations\) = self\.data_annotation_metamap', 'let ghost vx_mid = *self;'),
-                   (r're:self\.data_annotation_metamap\s*\.remove_second\(set_handle, data_handle\);', FINAL, None, 'cascade')],
+                   (r're:self\.data_annotation_metamap\s*\.remove_\w+\(', FINAL, None, 'cascade')],
            loops={r'vx_it: vx_list1': dict(invariant=[
                       ('args', 'set_handle == set && data_handle == data'),
                       ('strips', 'mono(old(self).annotations@, self.annotations@)'),
